@@ -12,41 +12,53 @@ func init() {
 	core.Register(&core.Check{
 		ID:    "C13",
 		Level: "model_checking",
-		Rule:  "TODO",
-		Run:   run,
+		Rule: "Part 2 (model checking): per wrapper kind (struct pointer/value, map[string|int|float64|uint8]T, []T, *[]T, [N]T, []interface{}, map[string]interface{}, nested combinations; 35 kinds) a breadth-first search over ALL histories up to the reported depth of script ops {take an element wrapper and keep it, get, set, delete, defineProperty, push, pop, shift, unshift, splice, sort, reverse, length=} on the root wrapper and on held element wrappers, with indices 0..len+2 (fixed-size arrays are written one and two past their end) and values {numbers, strings, null, object/array literals, held wrappers, elements of the root}, interleaved with Go-side mutations {assign field/element, append in place and with re-allocation, reslice, replace/delete/add map entry, replace the whole value}; every transition is executed in lock-step on goja and on the shadow model (twin Go value + documented copy-on-change rule), comparing the op result, the Go-side state after every op and, in every state, everything script can observe (dump, Object.keys, for-in, JSON.stringify, spread, in/hasOwnProperty, length) and Export() identity; states are de-duplicated by the model's canonical key (Go value dump + live element references + what every held wrapper denotes; a mutation attempt that threw is kept as a state of its own). " +
+			"Part 1 (exhaustive enumeration): every Go type of nesting <= the reported bound built by reflect over 20 leaf kinds and 9 constructors (pointer, slice, array, 3 map key kinds, 2 struct forms, func) plus a hand-written catalogue (embedded/unexported/tagged fields, method sets, named types, cycles) x boundary value pools x the 3 FieldNameMappers: script view == independent prediction, Export() identity, ExportTo own type deep-equal; every script-built object graph with <= N nodes (object/array nodes, two slots each, any target incl. itself) through 8 export routes: isomorphic image (sharing and cycles preserved); all func signatures with <= 2 parameters over 11 parameter types x variadic x 6 result lists in both directions with all argument tuples / returned values / thrown payloads. " +
+			"Non-trivial = a state that is new under the canonical key (part 2) or a distinct enumerated type / graph / call (part 1); cases are distinct by construction.",
+		Run:    run,
 		Replay: replay,
 	})
 }
 
+// bounds collects the largest completed bound of every part (evidence "bounds_completed").
+var bounds = map[string]interface{}{}
+
 func run(r *core.Run) {
-	defer startProf()()
-	if os.Getenv("C13_ONLY") == "" || os.Getenv("C13_ONLY") == "regress" {
+	r.Assume("integers outside +-(2^53-1) are not representable as ECMAScript numbers and are not in the value pools")
+	r.Assume("int/float keyed maps are addressed with canonical numeric keys only (ToValue documents no other keys)")
+	r.Assume("strings are valid UTF-8 (ToValue documents invalid UTF-8 as unspecified)")
+	r.Assume("what the ToValue/ExportTo documentation leaves undefined is outside the model domain and only checked for host panics: object literals that omit struct fields, conversion through an existing non-nil pointer, Export() of an element reference, objects converted to numbers/strings, pointer-to-func")
+	r.Assume("JSON.stringify / Array.prototype.join on Go values that contain a cycle through themselves kill the process (listed findings, probed in a child process); such states are excluded from the in-process exploration")
+	r.Assume("trusted base: package reflect, the shadow model (checks/c13/model.go), the dumpers (view.go), goja's JSON.parse and string/number primitives used by the observation functions")
+	only := os.Getenv("C13_ONLY") // development aid: run one part only
+	want := func(p string) bool { return only == "" || only == p }
+	if want("regress") {
 		runRegress(r)
 	}
-	if os.Getenv("C13_ONLY") == "" || os.Getenv("C13_ONLY") == "shapes" {
+	if want("shapes") {
 		runShapes(r)
 	}
-	if os.Getenv("C13_ONLY") == "" || os.Getenv("C13_ONLY") == "graphs" {
+	if want("graphs") {
 		runGraphs(r)
 	}
-	if os.Getenv("C13_ONLY") == "" || os.Getenv("C13_ONLY") == "funcs" {
+	if want("funcs") {
 		runFuncs(r)
 	}
-	if os.Getenv("C13_ONLY") != "" && os.Getenv("C13_ONLY") != "hist" {
-		return
-	}
-	kinds := allKinds()
-	if only := os.Getenv("C13_KIND"); only != "" {
-		var ks []*wkind
-		for _, k := range kinds {
-			if k.name == only {
-				ks = append(ks, k)
+	if want("hist") {
+		kinds := allKinds()
+		if k := os.Getenv("C13_KIND"); k != "" { // development aid: one wrapper kind only
+			var ks []*wkind
+			for _, wk := range kinds {
+				if wk.name == k {
+					ks = append(ks, wk)
+				}
 			}
+			kinds = ks
 		}
-		kinds = ks
+		runHistories(r, kinds)
 	}
-	runHistories(r, kinds)
-	r.Exhaustive(true)
+	r.Set("bounds_completed", bounds)
+	r.Exhaustive(only == "" && !r.Capped())
 }
 
 func replay(r *core.Run, raw json.RawMessage) {
